@@ -25,6 +25,52 @@ from qvm.cell import CellType                 # noqa: E402
 from qvm.trap import TrapCode                 # noqa: E402
 
 ALL_CONFIGS = [(o, g) for o in (0, 1, 2) for g in (False, True)]
+
+COMPILE_TIMEOUT = float(os.environ.get('QV_COMPILE_TIMEOUT', '30'))
+RUN_TIMEOUT = float(os.environ.get('QV_RUN_TIMEOUT', '30'))
+
+
+class HangGuard(BaseException):
+    """Raised by the alarm when one compilation or run exceeds its wall-clock
+    guard.  A guard hit is reported as *inconclusive*, never as a violation
+    (it protects the campaign from a hanging case)."""
+
+
+class guard:
+    def __init__(self, seconds):
+        self.seconds = seconds
+        self.active = False
+
+    def _fire(self, signum, frame):
+        raise HangGuard()
+
+    def __enter__(self):
+        import signal
+        import threading
+        if self.seconds and threading.current_thread() is \
+                threading.main_thread():
+            self.old = signal.signal(signal.SIGALRM, self._fire)
+            signal.setitimer(signal.ITIMER_REAL, self.seconds)
+            self.active = True
+        return self
+
+    def __exit__(self, *exc):
+        if self.active:
+            import signal
+            signal.setitimer(signal.ITIMER_REAL, 0)
+            signal.signal(signal.SIGALRM, self.old)
+        return False
+
+
+def limit_memory(gb=3):
+    """Cap the address space of a worker so that a runaway allocation ends
+    in MemoryError inside the case instead of exhausting the sandbox."""
+    try:
+        import resource
+        lim = int(gb * 1024 ** 3)
+        resource.setrlimit(resource.RLIMIT_AS, (lim, lim))
+    except Exception:
+        pass
 TYPE_CHAR = {
     CellType.INTEGER: '%', CellType.LONG: '&', CellType.SINGLE: '!',
     CellType.DOUBLE: '#', CellType.STRING: '$',
@@ -102,6 +148,20 @@ class Rejected:
         return '<Rejected %s loc=%r %s>' % (self.category, self.loc, self.msg)
 
 
+class TimedOut:
+    """The wall-clock guard fired (inconclusive)."""
+    kind = 'timeout'
+
+    def __init__(self, stage):
+        self.stage = stage
+
+    def key(self):
+        return ('timeout',)
+
+    def __repr__(self):
+        return '<TimedOut stage=%s>' % self.stage
+
+
 class HostExc:
     """An exception other than the two documented ones escaped."""
     kind = 'host_exc'
@@ -152,32 +212,43 @@ def split_sections(bcode):
 def compile_one(text, opt, dbg):
     """Run the whole documented pipeline for one configuration."""
     try:
+        with guard(COMPILE_TIMEOUT):
+            return _compile_one(text, opt, dbg)
+    except HangGuard:
+        return TimedOut('compile')
+    except MemoryError:
+        return HostExc(MemoryError('memory limit of the harness'),
+                       'compile')
+
+
+def _compile_one(text, opt, dbg):
+    try:
         compiler = Compiler(codegen_name='qvm', optimization_level=opt,
                             debug_info=dbg)
         code = compiler.compile(text)
     except (QSyntaxError, CompileError) as e:
         return Rejected(e)
     except BaseException as e:
-        if isinstance(e, (KeyboardInterrupt, MemoryError)):
+        if isinstance(e, (KeyboardInterrupt, MemoryError, HangGuard)):
             raise
         return HostExc(e, 'compile')
     try:
         bcode = bytes(code)
     except BaseException as e:
-        if isinstance(e, (KeyboardInterrupt, MemoryError)):
+        if isinstance(e, (KeyboardInterrupt, MemoryError, HangGuard)):
             raise
         return HostExc(e, 'bytes')
     try:
         listing = str(code)
     except BaseException as e:
-        if isinstance(e, (KeyboardInterrupt, MemoryError)):
+        if isinstance(e, (KeyboardInterrupt, MemoryError, HangGuard)):
             raise
         return HostExc(e, 'listing')
     try:
         with contextlib.redirect_stderr(io.StringIO()):
             module = QModule.parse(bcode)
     except BaseException as e:
-        if isinstance(e, (KeyboardInterrupt, MemoryError)):
+        if isinstance(e, (KeyboardInterrupt, MemoryError, HangGuard)):
             raise
         return HostExc(e, 'load')
     return Accepted(code, bcode, listing, module)
@@ -463,7 +534,8 @@ def execute(module, script=None, tick_budget=200000, on_tick=None,
     host = None
     budget = exhausted = False
     ncode = len(module.code)
-    with contextlib.redirect_stdout(out):
+    timed_out = False
+    with contextlib.redirect_stdout(out), guard(RUN_TIMEOUT):
         try:
             while True:
                 if cpu.halted:
@@ -482,8 +554,10 @@ def execute(module, script=None, tick_budget=200000, on_tick=None,
                     on_tick(cpu, ticks)
         except ScriptExhausted:
             exhausted = True
+        except HangGuard:
+            timed_out = True
         except BaseException as e:
-            if isinstance(e, (KeyboardInterrupt, MemoryError)):
+            if isinstance(e, KeyboardInterrupt):
                 raise
             host = HostExc(e, 'run')
     res.events = impl.events
@@ -492,7 +566,10 @@ def execute(module, script=None, tick_budget=200000, on_tick=None,
     res.machine = machine
     res.impl = impl
     res.stdout = out.getvalue()
-    res.outcome = outcome_of(cpu, module, host, budget, exhausted)
+    res.outcome = outcome_of(cpu, module, host, budget or timed_out,
+                             exhausted)
+    if timed_out:
+        res.outcome = ('budget', 'wall_clock_guard')
     return res
 
 
